@@ -356,14 +356,25 @@ func c13(c *core.Ctx) {
 							return
 						}
 						n++
-						var ctxArg ssa.Value
-						for _, a := range call.Call.Args {
-							if core.TypeStr(a.Type()) == "context.Context" {
-								ctxArg = a
+						// the context(s) the metadata is read from: the argument itself, or — for a helper — every
+						// argument in the position of a parameter that the helper reads outgoing metadata from
+						var ctxArgs []ssa.Value
+						if ci.Is(metadataPkg + ".FromOutgoingContext") {
+							ctxArgs = append(ctxArgs, call.Call.Args[0])
+						} else {
+							for i, pp := range ci.Static.Params {
+								if core.TypeStr(pp.Type()) == "context.Context" && i < len(call.Call.Args) && paramReadsOutgoing(ci.Static, pp, 0) {
+									ctxArgs = append(ctxArgs, call.Call.Args[i])
+								}
 							}
 						}
-						if ctxArg == nil || !ctxDerivesFromCall(ctxArg, ac) {
+						if len(ctxArgs) == 0 {
 							bad++
+						}
+						for _, ctxArg := range ctxArgs {
+							if !ctxDerivesFromCall(ctxArg, ac) {
+								bad++
+							}
 						}
 					})
 					switch {
@@ -825,4 +836,36 @@ func isResultOfFn(v ssa.Value, fn *ssa.Function) bool {
 		}
 	}
 	return true
+}
+
+// paramReadsOutgoing: fn reads outgoing metadata from (a context that may be)
+// its parameter par: par reaches the argument of metadata.FromOutgoingContext,
+// directly or through a helper of the module.
+func paramReadsOutgoing(fn *ssa.Function, par *ssa.Parameter, depth int) bool {
+	if fn == nil || fn.Blocks == nil || depth > 2 {
+		return false
+	}
+	found := false
+	core.Instrs(fn, func(in ssa.Instruction) {
+		call, ok := in.(*ssa.Call)
+		if !ok || found {
+			return
+		}
+		ci := core.InfoOf(&call.Call)
+		fromPar := func(a ssa.Value) bool {
+			return core.OriginIs(a, func(o ssa.Value) bool { return core.ResolveFree(core.Strip(o)) == ssa.Value(par) })
+		}
+		if ci.Is(metadataPkg+".FromOutgoingContext") && fromPar(call.Call.Args[0]) {
+			found = true
+			return
+		}
+		if ci.Static != nil && ci.Static.Blocks != nil && strings.HasPrefix(ci.Pkg, core.ModulePath) {
+			for i, a := range call.Call.Args {
+				if i < len(ci.Static.Params) && core.TypeStr(a.Type()) == "context.Context" && fromPar(a) && paramReadsOutgoing(ci.Static, ci.Static.Params[i], depth+1) {
+					found = true
+				}
+			}
+		}
+	})
+	return found
 }
